@@ -78,4 +78,16 @@ TEXT = {
         "technique": "Lean 4 proofs (invariants, progress, termination potential, refinement to the sequential result) over the protocol model + trace validation + fault enumeration with watchdog and thread accounting on the real code",
         "design_ref": "DESIGN.md section 3 C06, Appendix A",
     },
+    "C17": {
+        "level_text": "Proof of the decision logic over unbounded naturals: C17_streaminfo (accepted iff 1..8 channels, width in {8,12,16,20,24}, rate <= 96000) and C17_streaminfo_wraparound (2^32+k Hz, 2^8+k channels/bits, 0 channels rejected for every k), C17_framebuf (iff 1..8 channels and 32..32767 samples), C17_fill_interleaved_rejects / C17_fill_le_bytes_rejects (over-long fills, partial frames, widths outside 1..4, partial samples), C17_context_width (a byte fill is accepted iff its width is the declared one), C17_frame_args / C17_frame_number_rejected / C17_sample_range (frame number >= 2^31, empty buffer, channel mismatch, any out-of-range sample anywhere), C17_stream_args (encode_with_fixed_block_size in both modes accepts iff block size in 32..32767 and the source format is supported). The mirrors are tied to the code on the whole argument grid in both cargo profiles; 'never panics or hangs' is decided on the real code by that grid under catch_unwind and a watchdog.",
+        "level_note": "The theorems speak about the mirrored checks; panic/hang freedom of the real entry points is an enumeration over the grid, as the property's quantifier prescribes.",
+        "technique": "Lean 4 theorems stating the decision logic outright + exhaustive grid correspondence on the real API",
+        "design_ref": "DESIGN.md section 3 C17",
+    },
+    "C18": {
+        "level_text": "Proof over the constructor/verify mirrors (unbounded arguments): C18_residual_verify_iff (verify = WF and block size <= 32767, both directions), C18_residual_sound / _rejects / _complete, C18_qparams_sound / _rejects, C18_constant_sound, C18_verbatim_sound, C18_fixed_sound, C18_lpc_sound (every accepted component is well-formed, reports exactly the number of bits it writes (C08), issues only valid sink operations whose ideal bits are its bit string (C12)), C18_subframe_through_sinks, C18_header_sound / _rejects / _rejects_wraparound, C18_block_size_zero, C18_streaminfo_iff / _sound, C18_unknown_iff. C18_fixed_not_WF documents the one gap between verify and the strict WF (warm-up = whole block), shown harmless. Accept/reject, verify, count, bytes, operation list and parse-back are compared with the real constructors on the grid; 'no combination of arguments panics' is the grid enumeration under catch_unwind in both profiles.",
+        "level_note": "Parse-back identity is decided by running the real parser on every accepted grid case (theorems for the parser mirror are under C15).",
+        "technique": "Lean 4 soundness/completeness theorems for the constructor mirrors + grid correspondence (constructor, verify, count, write through three sinks, parse back)",
+        "design_ref": "DESIGN.md section 3 C18",
+    },
 }
